@@ -826,6 +826,71 @@ func c03Retention(fillers, fillerLen, otherConns int) (explore.Result, string) {
 	return res, harness.Kinds(out)
 }
 
+// c03RunBlockEnd: a message with an unread tail (a Parse that pre-declares parameter types the server never looks
+// at) ends d bytes before the end of the reader's 4 KiB block; the message behind it has a body of t bytes. However
+// the two fall relative to the block, the later messages are interpreted as they are at any other alignment.
+func c03RunBlockEnd(d, t, oids int) explore.Result {
+	var res explore.Result
+	res.Outcome = "earlier-message"
+	res.Key = fmt.Sprint("block-end", d, t, oids)
+	st := pgproto.Startup("user", "u")
+	types := make([]uint32, oids)
+	parse := pgproto.Parse("x", "select 1", types...)
+	mark := "select $1 mark"
+	build := func(shift int) []byte {
+		used := (len(st) - 4) + (len(parse) - 5)
+		fill := 4096 - d - used - shift
+		behind := pgproto.Msg('Q', append(bytes.Repeat([]byte("b"), max(t-1, 0)), 0)[:t])
+		if t == 0 {
+			behind = pgproto.Sync()
+		}
+		return pgproto.Cat(st, pgproto.Query(strings.Repeat("f", fill-1)), parse, behind, pgproto.Sync(), pgproto.Query(mark))
+	}
+	with := c04Run(false, c04Feed{Stream: build(0)}, false)
+	without := c04Run(false, c04Feed{Stream: build(60)}, false)
+	if with.engine != "" || without.engine != "" {
+		res.Engine = with.engine + without.engine
+		return res
+	}
+	norm := func(ev []string) []string {
+		var out []string
+		for _, e := range ev {
+			if strings.Contains(e, "fffff") {
+				e = "parse (filler)"
+			}
+			out = append(out, e)
+		}
+		return out
+	}
+	a, b := norm(with.events), norm(without.events)
+	if !sameStrings(a, b) || harness.Kinds(with.out) != harness.Kinds(without.out) {
+		res.Fail("earlier-message-leaked", fmt.Sprintf("a Parse pre-declaring %d parameter types that ends %d bytes before the end of the reader's 4 KiB block, followed by a message with a %d-byte body: observed\n  %v (reply %q)\nbut 60 bytes earlier in the block\n  %v (reply %q)", oids, d, t, clipList(a), harness.Kinds(with.out), clipList(b), harness.Kinds(without.out)))
+	}
+	res.Trans = []string{"unread tail|block boundary|next message"}
+	return res
+}
+
+// c03RunReadFault: one transport read fails with a temporary error (a timeout) in the middle of a message that
+// arrives in pieces. The connection may be given up, or the read may be taken up again: what reaches the callbacks
+// is a prefix of what reaches them without the fault - never a text the client did not send.
+func c03RunReadFault(maxSeg, k int) explore.Result {
+	var res explore.Result
+	res.Outcome = "segmentation"
+	res.Key = fmt.Sprint("read-fault", maxSeg, k)
+	stream := pgproto.Cat(pgproto.Startup("user", "u"), pgproto.Query("SELECT 1"), pgproto.Parse("s", "select $1, $2"), pgproto.Bind("p", "s", nil, [][]byte{[]byte("alpha"), []byte("beta")}, nil), pgproto.Execute("p", 0), pgproto.Sync(), pgproto.Query("SELECT 2"))
+	ref := c04Run(false, c04Feed{Stream: stream, MaxSeg: maxSeg}, false)
+	got := c04Run(false, c04Feed{Stream: stream, MaxSeg: maxSeg, Faults: memnet.Faults{ReadErrOnceAt: k, Timeout: true}}, false)
+	if ref.engine != "" || got.engine != "" {
+		res.Engine = ref.engine + got.engine
+		return res
+	}
+	if len(got.events) > len(ref.events) || !sameStrings(got.events, ref.events[:len(got.events)]) {
+		res.Fail("segmentation-dependent", fmt.Sprintf("the stream arrives in pieces of %d bytes and transport read %d fails once with a timeout: the callbacks saw\n  %v\nwithout the fault they see\n  %v", maxSeg, k, clipList(got.events), clipList(ref.events)))
+	}
+	res.Trans = []string{"reading|one temporary read error|prefix of the fault-free run"}
+	return res
+}
+
 // ---- inside COPY-in --------------------------------------------------------------------------------
 
 // c03RunOversizedInCopy: an oversized message arrives while a statement is copying in; it is consumed in exactly its
@@ -923,6 +988,34 @@ func c03AccDepth(tier string) int {
 }
 
 func c03Enumerate(tier string, emit explore.Emit) {
+	for _, oids := range []int{1, 100, 900} {
+		for d := 0; d <= 24; d++ {
+			for _, t := range []int{0, 1, 4, 8, 12, 16, 23, 24, 25, 40} {
+				if oids == 900 && d%3 != 0 {
+					continue
+				}
+				d, t, oids := d, t, oids
+				emit(explore.Case{Family: "earlier-message", Size: 33,
+					Desc: func() any {
+						return map[string]any{"parse_with_unread_type_oids": oids, "ends_bytes_before_block_end": d, "next_message_body_bytes": t}
+					},
+					Run: func() explore.Result { return c03RunBlockEnd(d, t, oids) }})
+			}
+		}
+	}
+	for _, seg := range []int{1, 3, 7, 50} {
+		for k := 1; k <= 60; k++ {
+			if seg > 3 && k > 24 {
+				break
+			}
+			seg, k := seg, k
+			emit(explore.Case{Family: "segmentation", Size: 500 + k,
+				Desc: func() any {
+					return map[string]any{"stream_delivered_in_pieces_of": seg, "transport_read_that_fails_once_with_a_timeout": k}
+				},
+				Run: func() explore.Result { return c03RunReadFault(seg, k) }})
+		}
+	}
 	for field := 0; field < 3; field++ {
 		for _, count := range []int{255, 256, 32767, 32768, 40000, 65535} {
 			for _, items := range []int{0, 2, count} {
